@@ -75,7 +75,34 @@ def make_patch(old: Dict[str, Any], new: Dict[str, Any]) -> List[Dict[str, Any]]
     """Generate a JSON patch by comparing the old document with the new one."""
     # RFC 6902 operations are applied sequentially (array indexes and "move" sources refer to the
     # document as modified by the preceding operations), so the order produced by jsonpatch must be kept
-    return list(jsonpatch.make_patch(old, new).patch)
+    patch = list(jsonpatch.make_patch(old, new).patch)
+    try:
+        reproduces = jsonpatch.apply_patch(old, patch) == new
+    except (jsonpatch.JsonPatchException, jsonpointer.JsonPointerException):
+        reproduces = False
+    if not reproduces:
+        # jsonpatch may turn a "remove" that precedes other removals from the same array into a "move" without
+        # re-basing the indexes (whether it happens depends on set iteration order, i.e. on PYTHONHASHSEED):
+        # describe the change key by key instead
+        patch = _make_plain_patch(old, new)
+    return patch
+
+
+def _make_plain_patch(old: Any, new: Any, path: str = "") -> List[Dict[str, Any]]:
+    """A patch of add/remove/replace operations only; values that are not both mappings are replaced as a whole."""
+    if not (isinstance(old, dict) and isinstance(new, dict)):
+        return [{"op": "replace", "path": path, "value": new}] if old != new else []
+    patch = []
+    for key in old:
+        if key not in new:
+            patch.append({"op": "remove", "path": f"{path}/{jsonpointer.escape(key)}"})
+    for key, value in new.items():
+        key_path = f"{path}/{jsonpointer.escape(key)}"
+        if key not in old:
+            patch.append({"op": "add", "path": key_path, "value": value})
+        else:
+            patch.extend(_make_plain_patch(old[key], value, key_path))
+    return patch
 
 
 def apply_patch(content: Optional[bytes], patch_bytes: bytes) -> bytes:
